@@ -86,6 +86,7 @@ def gen_full(rng, tier):
     n = 900 if tier == "quick" else 20000
     caseless = c24.caseless_in_tree()
     yield from incgen.fixed_cases()
+    yield from incgen.enum_cases(rng, tier)
     for i in range(n):
         t = incgen.gen_tree(rng, caseless)
         exp = t["expected"]
@@ -134,7 +135,7 @@ CHECK = {
     "props": "Props/C25.v",
     "theorems": ["c25_stack_eq_expand", "c25_terminates", "c25_depth", "c25_context_scoping",
                  "c25_iter_stack_eq_expand", "c25_iter_depth", "c25_lines_are_iter", "c25_relative_paths", "c25_full_stack_eq_expand", "c25_full_total_valid",
-                 "c25_full_include_boundary", "c25_full_include_directory"],
+                 "c25_full_include_boundary", "c25_full_include_directory", "c25_has_parent_iff"],
     "allowed_axioms": [],
     "suites": [{
         "name": "zoneinc",
@@ -155,7 +156,9 @@ CHECK = {
         "oracle_ok": oracle_ok_full,
         "exhaustive": {"quick": False, "thorough": False},
         "rule": ("30 hand-written boundary trees (included file ending inside parentheses / without a line ending / empty; directive over several "
-                 "lines; chains at the limit; self- and mutual inclusion; directories; the name limit reached through the handed-down origin; ...), then "
+                 "lines; chains at the limit; self- and mutual inclusion; directories; the name limit reached through the handed-down origin; ...); small-scope enumeration: every root of 1..4 lines "
+                 "over 7 context-setting / context-using lines with an $INCLUDE x every included file of 0..2 lines over 5 such lines (62 620 trees; a seeded "
+                 "sample of 1500 in the quick tier, all in the thorough tier); then "
                  "random trees of REAL zone files (checks/incgen.py): 1..7 files in sub-directories (one with a blank in its name), generated in "
                  "execution order by a generator that carries the parse context the property prescribes; every record type of checks/zfgen.py "
                  "(incl. CH A, WKS, TXT, SOA, unknown types, \\# forms), $ORIGIN / $TTL in includers and included files, $INCLUDE paths relative "
